@@ -117,7 +117,7 @@ def cases(tier, seed):
     # every length 0..64, and - as for the octet buffers - lengths around the next powers of two up to 4 KiB of image
     # (an implementation that works through the words in portions has its seams there, not below 64)
     longer = [65, 66, 96, 127, 128, 129, 191, 192, 193, 255, 256, 257, 511, 512, 513, 1000, 2048] + [rnd.randint(65, 2048) for _ in range(6)]
-    for n in list(range(0, 65)) + longer:
+    for n in list(range(0, 65)) + sorted(set(longer)):
         img = rhex(rnd, 2 * n)
         init = rnd.choice([0, 0xffff, rnd.getrandbits(16)])
         cs.append(Case("u16-%d" % n, ["crc.u16 %04x %s" % (init, img), "crc.buf %04x %s" % (init, img)], ("words",)))
